@@ -419,8 +419,20 @@ func genC08(r *Rng, tier string) []Case {
 			tnMax, tiMax := uint16(randIntBits(rc, 16, true)), uint16(randIntBits(rc, 16, false))
 			binary.LittleEndian.PutUint16(b[14:], tnMax)
 			binary.LittleEndian.PutUint16(b[42:], tiMax)
+			// the offset of an EMPTY field means nothing either (a server may leave the whole descriptor zeroed)
+			tnOff, tiOff := "-", "-"
+			if len(tn) == 0 && rc.Intn(2) == 0 {
+				o := uint32(rc.Pick(0, 0, 8, 48, 55))
+				binary.LittleEndian.PutUint32(b[16:], o)
+				tnOff = strconv.Itoa(int(o))
+			}
+			if len(ti) == 0 && rc.Intn(2) == 0 {
+				o := uint32(rc.Pick(0, 0, 8, 48, 55))
+				binary.LittleEndian.PutUint32(b[44:], o)
+				tiOff = strconv.Itoa(int(o))
+			}
 			sargs[0] = hx(b)
-			sargs = append(sargs, strconv.Itoa(int(tnMax)), strconv.Itoa(int(tiMax)))
+			sargs = append(sargs, strconv.Itoa(int(tnMax)), strconv.Itoa(int(tiMax)), tnOff, tiOff)
 			tag += ".maxlen"
 		}
 		cs = append(cs, Case{Op: "c08.chal", MArgs: []string{hx(b)}, Tag: tag, SArgs: sargs})
